@@ -87,6 +87,13 @@ class TaskSetBase {
     return canceled_.load(std::memory_order_acquire);
   }
 
+#if defined(DISPENSO_VERIF)
+  // Read-only accessor for verification monitors.
+  ssize_t verifOutstanding() const {
+    return outstandingTaskCount_.load(std::memory_order_relaxed);
+  }
+#endif // DISPENSO_VERIF
+
   /**
    * Check whether an exception has been captured by this task set.
    * When exceptions are disabled at compile time, this always returns false,
@@ -139,6 +146,7 @@ class TaskSetBase {
       if (pushed) {
         detail::popThreadTaskSet();
       }
+      DISPENSO_VERIF_POINT(::dispenso::verif::kTaskSetWrapperAfterBody);
       outstandingTaskCount_.fetch_sub(1, std::memory_order_release);
     };
   }
@@ -168,6 +176,7 @@ class TaskSetBase {
       if (pushed) {
         detail::popThreadTaskSet();
       }
+      DISPENSO_VERIF_POINT(::dispenso::verif::kTaskSetWrapperAfterBody);
       outstandingTaskCount_.fetch_sub(1, std::memory_order_release);
     };
   }
@@ -217,6 +226,7 @@ class TaskSetBase {
         pool_.numRings_.load(std::memory_order_relaxed) >= count &&
         !detail::PerPoolPerThreadInfo::isPoolRecursive(&pool_) &&
         outstandingTaskCount_.load(std::memory_order_relaxed) <= taskSetLoadFactor_) {
+      DISPENSO_VERIF_POINT(::dispenso::verif::kTaskSetBulkAfterRingTest);
       outstandingTaskCount_.fetch_add(static_cast<ssize_t>(count), std::memory_order_acquire);
       pool_.scheduleBulkToRings(
           count, [this, &gen](size_t j) { return packageTaskNoIncrement(gen(j)); }, token);
